@@ -360,54 +360,8 @@ fn expand<const L: usize>(
             && fails.is_empty()
             && hist[base_len..].iter().any(|s| matches!(s.op, Op::Reload { .. }))
         {
-            let plain: Vec<Step> = hist
-                .iter()
-                .map(|s| match s.op {
-                    // keep the clock advance of the removed reload step
-                    Op::Reload { .. } => Step { dt: 0, op: Op::SetTime { dt: s.dt } },
-                    _ => s.clone(),
-                })
-                .collect();
-            let r = util::subject(|| {
-                let mut b2 = build_book::<L>(&cfg.profile, &plain);
-                let s2 = Snap::take(&b2);
-                if s2 != after {
-                    return Err(format!("never-reloaded run vs reloaded run: {}", s2.describe_diff(&after)));
-                }
-                // sweep both real books and compare what executes
-                let mut b1 = build_book::<L>(&cfg.profile, &hist);
-                let sweep = |b: &mut OrderBook<L>| {
-                    b.enable_trading();
-                    let n0 = b.get_trades().len();
-                    for bid in [true, false] {
-                        b.set_time(b.get_time().saturating_add(1));
-                        b.reset_trade_vol();
-                        let v = if bid { b.ask_vol() } else { b.bid_vol() }.saturating_add(1);
-                        let _ = b.create_and_place_order(side_of(bid), v, 9, None);
-                    }
-                    (
-                        b.get_trades()[n0..].iter().map(TradeRec::of).collect::<Vec<_>>(),
-                        Snap::take(b),
-                    )
-                };
-                let (t1, f1) = sweep(&mut b1);
-                let (t2, f2) = sweep(&mut b2);
-                if t1 != t2 {
-                    return Err(format!("sweeping executes {:?} after reload but {:?} without", t1, t2));
-                }
-                if f1 != f2 {
-                    return Err(format!("after sweeping: {}", f2.describe_diff(&f1)));
-                }
-                Ok(())
-            });
-            match r {
-                Ok(Ok(())) => {}
-                Ok(Err(d)) => fails.push(Fail { monitor: "reload", clause: "diverges-from-never-reloaded".into(), detail: d }),
-                Err(msg) => fails.push(Fail {
-                    monitor: "panic",
-                    clause: format!("reload-diff/{}", util::panic_sig(&msg)),
-                    detail: msg,
-                }),
+            if let Some(f) = reload_diff_check::<L>(&cfg.profile, &hist, &after) {
+                fails.push(f);
             }
         }
         drop(book);
@@ -434,6 +388,123 @@ fn expand<const L: usize>(
         }
     }
     sh.progress.fetch_add(1, Ordering::Relaxed);
+}
+
+/// Model-free differential for snapshot reloads: the run h.reload.c must be indistinguishable
+/// (snapshot and sweep) from the same run on a book that was never reloaded.
+pub fn reload_diff_check<const L: usize>(profile: &Profile, hist: &[Step], after: &Snap) -> Option<Fail> {
+    let plain: Vec<Step> = hist
+        .iter()
+        .map(|s| match s.op {
+            // keep the clock advance of the removed reload step
+            Op::Reload { .. } => Step { dt: 0, op: Op::SetTime { dt: s.dt } },
+            _ => s.clone(),
+        })
+        .collect();
+    let r = util::subject(|| {
+        let mut b2 = build_book::<L>(profile, &plain);
+        let s2 = Snap::take(&b2);
+        if s2 != *after {
+            return Err(format!("never-reloaded run vs reloaded run: {}", s2.describe_diff(after)));
+        }
+        // sweep both real books and compare what executes
+        let mut b1 = build_book::<L>(profile, hist);
+        let sweep = |b: &mut OrderBook<L>| {
+            b.enable_trading();
+            let n0 = b.get_trades().len();
+            for bid in [true, false] {
+                b.set_time(b.get_time().saturating_add(1));
+                b.reset_trade_vol();
+                let v = if bid { b.ask_vol() } else { b.bid_vol() }.saturating_add(1);
+                let _ = b.create_and_place_order(side_of(bid), v, 9, None);
+            }
+            (
+                b.get_trades()[n0..].iter().map(TradeRec::of).collect::<Vec<_>>(),
+                Snap::take(b),
+            )
+        };
+        let (t1, f1) = sweep(&mut b1);
+        let (t2, f2) = sweep(&mut b2);
+        if t1 != t2 {
+            return Err(format!("sweeping executes {:?} after reload but {:?} without", t1, t2));
+        }
+        if f1 != f2 {
+            return Err(format!("after sweeping: {}", f2.describe_diff(&f1)));
+        }
+        Ok(())
+    });
+    match r {
+        Ok(Ok(())) => None,
+        Ok(Err(d)) => Some(Fail { monitor: "reload", clause: "diverges-from-never-reloaded".into(), detail: d }),
+        Err(msg) => Some(Fail {
+            monitor: "panic",
+            clause: format!("reload-diff/{}", util::panic_sig(&msg)),
+            detail: msg,
+        }),
+    }
+}
+
+/// Replay one recorded history (a replay artefact) on a fresh real book, judging every step with
+/// the given monitors exactly as the explorer does (incl. drain probe and reload differential).
+pub fn replay_history<const L: usize>(cfg: &RunCfg) -> Vec<(usize, Fail)> {
+    crate::ops::TRADER_BASE.store(cfg.profile.trader_base, Ordering::Relaxed);
+    let p = &cfg.profile;
+    let mut out = Vec::new();
+    let mut model = RefModel::new(p.start_time, p.tick, p.start_trading);
+    let mut track = Track::new(p.start_trading);
+    let mut snap = Snap::take(&OrderBook::<L>::new(p.start_time, p.tick, p.start_trading));
+    for i in 0..cfg.base.len() {
+        let hist = &cfg.base[..=i];
+        let step = &cfg.base[i];
+        let real = util::subject(|| {
+            let mut book = build_book::<L>(p, &hist[..i]);
+            let ret = apply_real(&mut book, step);
+            let after = Snap::take(&book);
+            (book, ret, after)
+        });
+        let mut m2 = model.clone();
+        let m_ret = apply_model(&mut m2, step);
+        let (mut book, ret, after) = match real {
+            Ok(x) => x,
+            Err(msg) => {
+                out.push((i, Fail {
+                    monitor: "panic",
+                    clause: format!("{}/{}", op_kind(&step.op), util::panic_sig(&msg)),
+                    detail: format!("the library panicked on a valid history: {}", msg),
+                }));
+                break;
+            }
+        };
+        let mut t2 = track.clone();
+        t2.note(step, &snap, &after);
+        let mut fails = judge::<L>(cfg, step, &snap, &after, &ret, &m2, &m_ret, &track, &t2);
+        if cfg.monitors.drain && fails.is_empty() {
+            let mut md = m2.clone();
+            match util::subject(|| drain_probe(&mut book, &mut md)) {
+                Ok(Ok(())) => {}
+                Ok(Err((clause, detail))) => fails.push(Fail { monitor: "drain", clause, detail }),
+                Err(msg) => fails.push(Fail {
+                    monitor: "panic",
+                    clause: format!("drain/{}", util::panic_sig(&msg)),
+                    detail: format!("the library panicked while the book was swept: {}", msg),
+                }),
+            }
+        }
+        if cfg.monitors.reload_diff && fails.is_empty() && hist.iter().any(|s| matches!(s.op, Op::Reload { .. })) {
+            if let Some(f) = reload_diff_check::<L>(p, hist, &after) {
+                fails.push(f);
+            }
+        }
+        if !fails.is_empty() {
+            out.extend(fails.into_iter().map(|f| (i, f)));
+            break;
+        }
+        model = m2;
+        track = t2;
+        snap = after;
+    }
+    crate::ops::TRADER_BASE.store(100, Ordering::Relaxed);
+    out
 }
 
 fn record_fail(cfg: &RunCfg, st: &mut RunStats, f: &Fail, hist: &[Step], levels: usize) {
